@@ -78,7 +78,32 @@ func zzvCountWrites(log []zzvWrite) int {
 	return n
 }
 
-var zzvOpName = []string{"pin-recursive", "pin-direct", "pin-with-mode", "unpin", "update"}
+var zzvOpName = []string{"pin-recursive", "pin-direct", "pin-with-invalid-mode", "unpin", "update"}
+
+// zzvInReplaceWindow: among the surviving writes base..base+cut-1 (Syncs not counted) a pin record was deleted
+// and no pin record was written.
+func zzvInReplaceWindow(log []zzvWrite, base, cut int) bool {
+	pfx := pinKeyPath + "/"
+	del, put := false, false
+	i := 0
+	for _, w := range log {
+		if w.kind == 2 {
+			continue
+		}
+		if i >= base && i < base+cut {
+			k := w.key.String()
+			if len(k) > len(pfx) && k[:len(pfx)] == pfx {
+				if w.kind == 1 {
+					del = true
+				} else {
+					put = true
+				}
+			}
+		}
+		i++
+	}
+	return del && !put
+}
 
 // zzvConsistent: records <-> indexes on the re-opened pinner.
 func zzvConsistent(p *pinner, store ds.Datastore) {
@@ -140,13 +165,18 @@ func zzvConsistent(p *pinner, store ds.Datastore) {
 // HarnessC23Crash: a state reached by 0..PRE setup operations; one more operation runs to completion on the
 // logging store; a cut index selects how many of that operation's state-changing writes (Put/Delete, in order)
 // survive, everything written before the operation survives; the pinner is re-opened with New on that store.
-func HarnessC23Crash() {
+func HarnessC23Crash() { zzvCrash() }
+
+// HarnessC23Crash2: the same from states reached by exactly two setup operations (thorough tier only).
+func HarnessC23Crash2() { zzvCrash() }
+
+func zzvCrash() {
 	n := verifrt.Param("N", 2)
 	d := zzvNewDag(n, false)
 	m := &zzvModel{n: n}
 	st := &zzvLogDS{inner: ds.NewMapDatastore()}
 	p := zzvNewPinner(d, st)
-	pre := verifrt.NondetRange("pre", 0, verifrt.Param("PRE", 1))
+	pre := verifrt.NondetRange("pre", verifrt.Param("PREMIN", 0), verifrt.Param("PRE", 1))
 	for i := 0; i < pre; i++ {
 		zzvStep(p, d, m, zzvStepOpt{setup: true, succeed: true})
 	}
@@ -183,7 +213,13 @@ func HarnessC23Crash() {
 		_, pinned, err := p2.IsPinned(ctx, d.cids[c])
 		id := "C23.still-pinned-other-cid"
 		if info.cid == c || info.to == c {
-			id = "C23.still-pinned-after-" + zzvOpName[info.op] + "-of-" + []string{"", "recursive", "direct"}[m0.mode[c]]
+			// Pin/PinWithMode of an already pinned CID replaces the pin: ids "...-after-pin-<new>-of-<old>" are
+			// reserved for a cut inside the replace window (old pin record deleted, new one not yet written);
+			// a CID lost at any other cut gets a different id.
+			id = "C23.still-pinned-after-" + zzvOpName[info.eff] + "-of-" + []string{"", "recursive", "direct"}[m0.mode[c]]
+			if !(info.eff <= 1 && info.cid == c && zzvInReplaceWindow(st.log, base, cut)) {
+				id += "-outside-replace-window"
+			}
 		}
 		verifrt.Assert(id, err == nil && pinned)
 	}
